@@ -39,6 +39,7 @@ class Unsupported(Exception):
 # sorts
 
 Sym = z3.DeclareSort('Sym')      # opaque hashable element (character, label, ...)
+NONE_SYM = z3.Const('None_symbol', Sym)      # python's None where a symbol is expected (default empty_symbol=None)
 Val = z3.DeclareSort('Val')      # opaque python object (string, matrix, ...) held in heap fields
 Ref = z3.IntSort()               # heap references are ints (distinctness stated explicitly)
 
